@@ -2,6 +2,7 @@ package rules
 
 import (
 	"go/token"
+	"regexp"
 	"strings"
 
 	"golang.org/x/tools/go/ssa"
@@ -312,4 +313,86 @@ func fmtCombo(c [2]bool) string {
 		return "0"
 	}
 	return "abs=" + b(c[0]) + ",neg=" + b(c[1])
+}
+
+// checkSCCWidth (R03.39): SCC of a 32-bit scalar shift is decided on the 32-bit result.
+func checkSCCWidth(c *core.Ctx, handlers []handlerRef) {
+	st := c.Rule("R03.39", "in the handlers of 32-bit scalar instructions (s_*_b32 / _u32 / _i32) a zero test that decides SCC is made on the 32-bit result: the tested value is not a left shift carried out in 64 bits (the bits shifted out of the 32-bit register would count: SDST is written truncated and reads 0 while SCC says non-zero)", 2)
+	name32 := regexp.MustCompile(`^s_.*_(b32|u32|i32)$`)
+	seen := map[string]bool{}
+	for _, h := range handlers {
+		is32 := false
+		for _, n := range h.insts {
+			if name32.MatchString(baseMnemonic(n)) {
+				is32 = true
+			}
+		}
+		key := h.alu.pkg + "." + h.name
+		if !is32 || seen[key] {
+			continue
+		}
+		seen[key] = true
+		fn := c.SSAFunc(h.alu.pkg, h.alu.typ+"."+h.name)
+		if fn == nil {
+			continue
+		}
+		setsSCC := func(b *ssa.BasicBlock) bool {
+			for _, in := range b.Instrs {
+				if name, _ := stateMethod(in); name == "SetSCC" {
+					return true
+				}
+			}
+			return false
+		}
+		var wideShift func(v ssa.Value, depth int) *ssa.BinOp
+		wideShift = func(v ssa.Value, depth int) *ssa.BinOp {
+			if depth > 4 {
+				return nil
+			}
+			switch x := v.(type) {
+			case *ssa.BinOp:
+				if x.Op == token.SHL {
+					if bits, ok := uTypeBits(x.Type()); ok && bits == 64 {
+						return x
+					}
+				}
+			case *ssa.Phi:
+				for _, e := range x.Edges {
+					if s := wideShift(e, depth+1); s != nil {
+						return s
+					}
+				}
+			case *ssa.Convert:
+				if bits, ok := uTypeBits(x.Type()); ok && bits == 64 {
+					if ib, ok2 := uTypeBits(x.X.Type()); ok2 && ib == 64 {
+						return wideShift(x.X, depth+1)
+					}
+				}
+			}
+			return nil
+		}
+		for _, b := range fn.Blocks {
+			iff, ok := b.Instrs[len(b.Instrs)-1].(*ssa.If)
+			if !ok {
+				continue
+			}
+			bo, ok := iff.Cond.(*ssa.BinOp)
+			if !ok || (bo.Op != token.NEQ && bo.Op != token.EQL) {
+				continue
+			}
+			if z, isC := core.ConstInt(bo.Y); !isC || z != 0 {
+				continue
+			}
+			if len(b.Succs) != 2 || !(setsSCC(b.Succs[0]) || setsSCC(b.Succs[1])) {
+				continue
+			}
+			st.Instances++
+			c.MarkAnalysed(fn)
+			sh := wideShift(bo.X, 0)
+			st.Ob(sh == nil)
+			if sh != nil {
+				c.ReportAt("R03.39", fn, bo.Pos(), "scc-from-64-bit-shift", core.FuncName(fn)+" decides SCC on a left shift carried out in 64 bits: for 0x80000000 << 1 the destination register receives 0 (the write keeps 32 bits) while SCC is set to 1; the ISA sets SCC from the 32-bit result")
+			}
+		}
+	}
 }
